@@ -5,7 +5,12 @@
 PATCH="$(readlink -f "$1")"; shift
 WT="$(mktemp -d /tmp/mutant-XXXXXX)"
 rmdir "$WT"
-git -C /repo worktree add --detach -q "$WT" HEAD || exit 2
+# (several of these may run at once: retry when another one holds git's lock)
+N=0
+until git -C /repo worktree add --detach -q "$WT" HEAD 2>/dev/null; do
+  N=$((N + 1)); [ $N -ge 10 ] && { echo "cannot create scratch worktree"; exit 2; }
+  sleep 1
+done
 if ! git -C "$WT" apply "$PATCH"; then
   echo "patch does not apply"; git -C /repo worktree remove --force "$WT"; exit 2
 fi
